@@ -6,6 +6,8 @@ package main
 
 import (
 	"fmt"
+	"go/constant"
+	"go/token"
 	"go/types"
 	"os"
 	"path/filepath"
@@ -37,6 +39,40 @@ func refPath(t *Term) string {
 		return ""
 	}
 	return "?"
+}
+
+// emptyCheckedField: the configuration field a value compared with "" was read from.
+func emptyCheckedField(v ssa.Value, d int) string {
+	if d > 5 {
+		return ""
+	}
+	switch x := v.(type) {
+	case *ssa.UnOp:
+		return emptyCheckedField(x.X, d+1)
+	case *ssa.FieldAddr:
+		return faField(x).Name()
+	case *ssa.Field:
+		if st, ok := x.X.Type().Underlying().(*types.Struct); ok {
+			return st.Field(x.Field).Name()
+		}
+	case *ssa.IndexAddr:
+		return emptyCheckedField(x.X, d+1)
+	case *ssa.Index:
+		return emptyCheckedField(x.X, d+1)
+	case *ssa.Extract:
+		if nx, ok := x.Tuple.(*ssa.Next); ok {
+			if r, ok := nx.Iter.(*ssa.Range); ok {
+				return emptyCheckedField(r.X, d+1)
+			}
+		}
+	case *ssa.Phi:
+		for _, e := range x.Edges {
+			if f := emptyCheckedField(e, d+1); f != "" {
+				return f
+			}
+		}
+	}
+	return ""
 }
 
 func ruleValidateRefs(c *Ctx) {
@@ -210,6 +246,20 @@ func ruleValidateRefs(c *Ctx) {
 			switch x := v.(type) {
 			case *ssa.UnOp:
 				walk(x.X)
+			case *ssa.BinOp:
+				// the flag starts as "the reference is empty": only the two optional references may be left out
+				if x.Op == token.EQL || x.Op == token.NEQ {
+					for k, side := range []ssa.Value{x.X, x.Y} {
+						other := []ssa.Value{x.Y, x.X}[k]
+						if cst, ok := other.(*ssa.Const); !ok || cst.Value == nil || cst.Value.Kind() != constant.String || constant.StringVal(cst.Value) != "" {
+							continue
+						}
+						fld := emptyCheckedField(side, 0)
+						if fld != "" && fld != "Cache" && fld != "Compress" {
+							bad = append(bad, fmt.Sprintf("%s: an empty %s is exempted from its reference check: it is accepted for saving although nothing can be named \"\" (the server then resolves nothing)", c.P.pos(x.Pos()), fld))
+						}
+					}
+				}
 			case *ssa.Phi:
 				if x.Block() == outer {
 					bad = append(bad, fmt.Sprintf("%s: the 'found' flag tested here is carried across iterations of the outer loop (it is not reset for each referrer): once one referrer resolves, every later dangling one is accepted", c.P.pos(iff.Cond.Pos())))
